@@ -402,7 +402,22 @@ fn gen_branch_sc(r: &mut Rng, max_trains: usize) -> Option<Scenario> {
 }
 
 fn gen_sc(r: &mut Rng, max_trains: usize) -> (Scenario, &'static str) {
-    let class = r.below(6);
+    let class = r.below(8);
+    if class >= 6 {
+        // the network families of block c04 (crossing lines, junctions, yards, short links), with departures up to
+        // three hours apart: followers close up behind their leader inside one link before the opposing train moves
+        let mut sc4 = crate::b_c04::gen_scen(r, max_trains);
+        if class == 7 {
+            let spread = *r.pick(&[1800.0, 3600.0, 5400.0]);
+            for t in sc4.trains.iter_mut() {
+                t.state.time = uc::S * (r.range(0, 3) as f64 * spread);
+            }
+        }
+        let sidings: Vec<(usize, u32, u32)> = sc4.lines.iter().flat_map(|l| l.sidings.iter().map(|s| (s.0, s.1, s.2))).collect();
+        let dirs = sc4.routes.iter().map(|x| x.1).collect();
+        let dn = DispNet { net: sc4.net, main_fwd: vec![], main_rev: vec![], sidings };
+        return (Scenario { dn, trains: sc4.trains, dirs }, if class == 6 { "c04_families" } else { "c04_families_spread_departures" });
+    }
     if class == 0 {
         return (gen_scenario(r, max_trains), "base");
     }
@@ -430,7 +445,7 @@ fn gen_sc(r: &mut Rng, max_trains: usize) -> (Scenario, &'static str) {
     let mut trains = vec![];
     let mut dirs = vec![];
     // class 2: no sidings, opposing trains, same departure time (deadlock candidate)
-    let window = if class == 2 { 0 } else { *r.pick(&[0i64, 2, 10, 30]) };
+    let window = if class == 2 { 0 } else { *r.pick(&[0i64, 2, 10, 30, 120, 240]) };
     let interior = class == 4;
     for t in 0..nt {
         let east = if class == 3 || class == 2 { t % 2 == 0 } else { r.chance(0.5) };
@@ -835,15 +850,59 @@ fn panic_clause(msg: &str) -> &'static str {
 fn scenario_json(sc: &Scenario, class: &str, seed: u64) -> serde_json::Value {
     json!({
         "generator": "b_c05::gen_sc", "class": class, "case_seed": seed,
-        "network": sc.dn.net.iter().map(|l| json!({"idx": l.idx_curr.idx(), "next": l.idx_next.idx(), "next_alt": l.idx_next_alt.idx(), "prev": l.idx_prev.idx(), "prev_alt": l.idx_prev_alt.idx(), "flip": l.idx_flip.idx(), "len_m": l.length.value, "lockout": l.link_idxs_lockout.iter().map(|x| x.idx()).collect::<Vec<_>>(),
-            "speed": l.speed_set.as_ref().and_then(|s| s.speed_limits.first().map(|x| x.speed.value)), "elevs": l.elevs.iter().map(|e| (e.offset.value, e.elev.value)).collect::<Vec<_>>()})).collect::<Vec<_>>(),
+        "network": if class == "taconite" { json!("python/altrios/resources/networks/Taconite.yaml (as shipped in the tree under test)") } else { json!(null) },
+        "network_links": if class == "taconite" { vec![] } else { sc.dn.net.iter().map(|l| json!({"idx": l.idx_curr.idx(), "next": l.idx_next.idx(), "next_alt": l.idx_next_alt.idx(), "prev": l.idx_prev.idx(), "prev_alt": l.idx_prev_alt.idx(), "flip": l.idx_flip.idx(), "len_m": l.length.value, "lockout": l.link_idxs_lockout.iter().map(|x| x.idx()).collect::<Vec<_>>(),
+            "speed": l.speed_set.as_ref().and_then(|s| s.speed_limits.first().map(|x| x.speed.value)), "elevs": l.elevs.iter().map(|e| (e.offset.value, e.elev.value)).collect::<Vec<_>>()})).collect::<Vec<_>>() },
         "trains": sc.trains.iter().map(|t| json!({"id": t.train_id, "origs": t.origs.iter().map(|o| o.link_idx.idx()).collect::<Vec<_>>(), "dests": t.dests.iter().map(|o| o.link_idx.idx()).collect::<Vec<_>>(), "depart_s": t.state.time.value, "length_m": t.state.length.value, "mass_kg": t.state.mass_static.value, "n_locos": t.loco_con.loco_vec.len()})).collect::<Vec<_>>(),
     })
 }
 
+/// the shipped Taconite network (about a thousand links, mostly single track) with the crate's own example trains:
+/// 2..5 trains, random directions, departures up to three hours apart
+fn gen_taconite(r: &mut Rng) -> Option<Scenario> {
+    if true {
+        let sc4 = crate::b_c04::gen_taconite_scen(r)?;
+        let dirs = sc4.routes.iter().map(|x| x.1).collect();
+        return Some(Scenario { dn: DispNet { net: sc4.net, main_fwd: vec![], main_rev: vec![], sidings: vec![] }, trains: sc4.trains, dirs });
+    }
+    use altrios_core::train::{speed_limit_train_sim_fwd, speed_limit_train_sim_rev};
+    use altrios_core::traits::SerdeAPI;
+    static NET: std::sync::OnceLock<Option<Vec<Link>>> = std::sync::OnceLock::new();
+    let net = NET.get_or_init(|| {
+        let repo = std::env::var("VERIF_REPO").unwrap_or_else(|_| "/repo".to_string());
+        let p = std::path::Path::new(&repo).join("python/altrios/resources/networks/Taconite.yaml");
+        guard(|| Network::from_file(p).ok().map(|n| n.0)).flatten()
+    });
+    let net = net.as_ref()?;
+    let nt = r.usize(2, 5);
+    let mut trains = vec![];
+    let mut dirs = vec![];
+    for t in 0..nt {
+        let east = if t < 2 { t == 0 } else { r.chance(0.5) };
+        let mut s = if east { speed_limit_train_sim_fwd() } else { speed_limit_train_sim_rev() };
+        s.state.time = uc::S * (r.range(0, 6) as f64 * 1800.0);
+        s.train_id = format!("T{}{}", t + 1, if east { "fwd" } else { "rev" });
+        trains.push(s);
+        dirs.push(east);
+    }
+    Some(Scenario { dn: DispNet { net: net.clone(), main_fwd: vec![], main_rev: vec![], sidings: vec![] }, trains, dirs })
+}
+
+fn run_taconite(ctx: &mut Ctx, rr: &mut Rng, budget_s: u64) {
+    let case_seed = rr.0;
+    match gen_taconite(rr) {
+        Some(sc) => run_sc(ctx, rr, sc, "taconite", case_seed, budget_s),
+        None => ctx.count("c05.scenario.taconite_unavailable"),
+    }
+}
+
 fn run_scenario(ctx: &mut Ctx, rr: &mut Rng, max_trains: usize, budget_s: u64) {
     let case_seed = rr.0;
-    let (mut sc, class) = gen_sc(rr, max_trains);
+    let (sc, class) = gen_sc(rr, max_trains);
+    run_sc(ctx, rr, sc, class, case_seed, budget_s)
+}
+
+fn run_sc(ctx: &mut Ctx, rr: &mut Rng, mut sc: Scenario, class: &'static str, case_seed: u64, budget_s: u64) {
     // replay aid: VERIF_C05_KEEP=1,3 keeps only these trains (1-based) of the generated scenario
     if let Ok(keep) = std::env::var("VERIF_C05_KEEP") {
         let keep: Vec<usize> = keep.split(',').filter_map(|x| x.parse().ok()).collect();
@@ -917,7 +976,17 @@ fn run_scenario(ctx: &mut Ctx, rr: &mut Rng, max_trains: usize, budget_s: u64) {
             } else {
                 vec![]
             };
-            if named.is_empty() || named.iter().any(|&t| t == 0 || t > n) {
+            // validate_free_path: "Occupancy conflict at link 9 between train 4 and train 2 at dispatch node ..." — an
+            // explicit error that names the train that could not be routed and the one in its way
+            let conflict: Vec<usize> = e.match_indices("Occupancy conflict at link ").flat_map(|(i, _)| {
+                let rest = &e[i..];
+                let num_after = |key: &str| rest.find(key).and_then(|j| rest[j + key.len()..].split(|c: char| !c.is_ascii_digit()).next().and_then(|x| x.parse::<usize>().ok()));
+                vec![num_after("between train ").unwrap_or(0), num_after(" and train ").unwrap_or(0)]
+            }).collect();
+            if !conflict.is_empty() && conflict.iter().all(|&t| t >= 1 && t <= n) {
+                ctx.count("c05.dispatch.err_occupancy_conflict");
+                ctx.sample("c05.occupancy_conflict", json!({"error": e.chars().take(200).collect::<String>(), "trains": n, "class": class}));
+            } else if named.is_empty() || named.iter().any(|&t| t == 0 || t > n) {
                 ctx.count("c05.dispatch.err_other");
                 ctx.fail(P, "error_names_stuck_trains", "scenario", format!("run_dispatch failed without naming the trains that could not be routed: {}", e.chars().take(300).collect::<String>()), input.clone());
             } else {
@@ -973,7 +1042,7 @@ fn run_scenario(ctx: &mut Ctx, rr: &mut Rng, max_trains: usize, budget_s: u64) {
                 let verdict = plan_valid(net, &sc.trains, &ets, &routes);
                 ctx.op(P, "c05_plan_ok", &format!("{} {}", sctok, plan_tok(&routes)), &format!("ok {}", b(verdict)));
                 ctx.count(&format!("c05.plan_ok.real.{}", verdict));
-                let nm = if n <= 4 { 4 } else { 2 };
+                let nm = if class == "taconite" { 1 } else if n <= 4 { 4 } else { 2 };
                 for _ in 0..nm {
                     let (mp, kind) = mutate_plan(rr, &routes, &sc.trains, &ets, net.len());
                     let v = plan_valid(net, &sc.trains, &ets, &mp);
@@ -1071,6 +1140,7 @@ enum Item {
     Fns,
     UbProbe,
     Scenario,
+    Taconite,
 }
 
 fn items(tier: &str) -> Vec<Item> {
@@ -1078,6 +1148,7 @@ fn items(tier: &str) -> Vec<Item> {
     let mut v = vec![Item::Fns; if thorough { 8000 } else { 800 }];
     v.extend(vec![Item::UbProbe; if thorough { 12 } else { 3 }]);
     v.extend(vec![Item::Scenario; if thorough { 3000 } else { 300 }]);
+    v.extend(vec![Item::Taconite; if thorough { 600 } else { 60 }]);
     v
 }
 
@@ -1094,6 +1165,7 @@ fn run_item(ctx: &mut Ctx, it: Item, rr: &mut Rng) {
         }
         Item::UbProbe => op_ub_probe(ctx, rr),
         Item::Scenario => run_scenario(ctx, rr, 8, 20),
+        Item::Taconite => run_taconite(ctx, rr, 240),
     }
 }
 
@@ -1267,7 +1339,11 @@ pub fn run(ctx: &mut Ctx, r: &mut Rng, tier: &str) {
     if let Ok(seed) = std::env::var("VERIF_C05_CASE") {
         if let Ok(seed) = seed.parse::<u64>() {
             let mut rr = Rng(seed);
-            run_scenario(ctx, &mut rr, 8, 20);
+            if std::env::var("VERIF_C05_TACONITE").is_ok() {
+                run_taconite(ctx, &mut rr, 600);
+            } else {
+                run_scenario(ctx, &mut rr, 8, 20);
+            }
             for fd in &ctx.findings {
                 eprintln!("FINDING {} {}", fd.clause, fd.detail);
             }
